@@ -465,6 +465,18 @@ def check(case, mon):
         _cmp(mon, "pending_two_alive", e1 @ x, b1 * (P @ x), two, {"expr": "b1*S", **tag})
         _cmp(mon, "pending_two_alive", Sx @ x, P @ x, two, {"expr": "S", **tag})
         mon.count("pending_two_alive", 5)
+        # the transpose of one slicer object used as right factor of a slicer-slicer
+        # product and afterwards on its own: S.T taken later is the plain transpose again
+        if not (spec["ds"] is None and P.shape[1] != _ref(spec).shape[1]):
+            Sy = _mk(spec)
+            yv = drng.uniform(0.5, 1.5, rs)
+            prod = Sy @ Sy.T
+            tr = "transpose-reused-after-being-right-factor-of-a-chain"
+            _cmp(mon, "transpose_reuse", prod @ yv, P @ (P.T @ yv), tr,
+                 {"expr": "S@S.T", **tag})
+            _cmp(mon, "transpose_reuse", Sy.T @ yv, P.T @ yv, tr, {"expr": "S.T after", **tag})
+            _cmp(mon, "transpose_reuse", Sy @ x, P @ x, tr, {"expr": "S after", **tag})
+            mon.count("transpose_reuse", 3)
 
     # ---------------------------------------------------------- the chain
     if nch >= 2:
